@@ -10,6 +10,18 @@ TRUST = ("z3 5.1.0 (thorough tier cross-checks every decided query with cvc5 1.4
          "semantics of the kernels; the stubs listed in the evidence file")
 
 CHECKS = {
+    "C02": dict(
+        text="The real CouplingConstants, CKM2Matrix, nc_weights/cc_weights(_even/_odd), heavy nc_weights and the kernel "
+             "generators (light, heavy-light, heavy CC) are executed on symbolic electroweak parameters; z3 proves for ALL "
+             "Q2>0, sin2theta in (0,1), MZ, MW, polarisation in [-1,1], propagator correction, nine CKM^2>=0 that every "
+             "weight and the LO operator weight per parton (sum over kernels of weight x LO delta x chi/x) equals an "
+             "independent PDG/CKM oracle; the discrete lattice projectile x process x nf x kind x CKM mask is enumerated. "
+             "Unit tests pin a few numbers; here a sign/charge/propagator/CKM slip anywhere in parameter space is a sat model.",
+        note=TRUST + "; oracle yv/refs/ew.py written from PDG (tree-level eta_gammaZ) and docs/theory/fns.rst; for neutrino NC "
+             "beams both helicity sign conventions are accepted; heavy-CC FL LO prefactor is outside.",
+        technique="symbolic execution of the real weight code (z3 proxies) + z3 NRA equality with an independent PDG oracle",
+        design="§4 C02",
+    ),
     "C03": dict(
         text="Bounded symbolic execution of every RSL producer (all PartonicChannel classes of light/heavy/asy/intrinsic x orders "
              "0..3 x nf, RSL.from_distr_coeffs/from_delta with symbolic coefficients, every splitting label) on z3-backed "
